@@ -22,7 +22,18 @@ ASSUMPTIONS = [
     "conventions of optimalPartition taken from its callers: a (N+1)x(N+1) matrix describes N break candidates 0..N-1; "
     "the last row/column and the diagonal carry no cost; the returned list runs from 0 to N-1",
     "optimalSegmentation: matrix entry (i, j) = cost(track, i, j-1) as its comment documents; N = track.size() - 1",
-    "value of a list = sum of cost[i_k, i_k+1]; exact comparison on integer-valued matrices, 1e-9 relative on floats",
+    "value of a list = sum of cost[i_k, i_k+1]; exact comparison on integer-valued matrices and on such matrices multiplied by 2^k "
+    "(-50 <= k <= 40: every sum stays exact in binary64); on other float matrices two list values are equal when they differ by at most "
+    "1e-9 * (sum of the |entries| along the two lists) - relative to the data, no absolute floor, so that a table of magnitude 1e-13 is "
+    "judged like one of magnitude 1",
+    "magnitude: optimalPartition states no unit for its matrix - squared deviations in degrees (1e-10), likelihoods (1e-13), costs in "
+    "metres (1e3..1e9) are all inputs; the matrix scale is generated (2^k exact, decimal factors 1e-13..1e9) for optimalPartition, "
+    "optimalSegmentation and simplify FREE / FREE_MAXIMIZE; simplify modes 4/5/6 get coordinates (and length tolerances) times 2^k, "
+    "k in {0, -17, -30, -40, 12}",
+    "time stamps (simplify): optimalSimplification states nothing about time - the track may be a recorded one (increasing stamps), one built "
+    "from a geometry (Obs(position): all stamps equal the 1970 default), all stamps equal, decreasing (a reversed track) or unsorted; "
+    "positions of the generated tracks are pairwise distinct and a returned observation is identified by its POSITION (its stamp must be "
+    "the one of that input observation); the returned observations must be the optimal list in the ORIGINAL index order",
     "findStopsGlobal: reward of a segment p_i..p_j-1 = (j-i)^2 if its minimal enclosing circle is smaller than `diameter` and it "
     "lasts longer than `duration`, else 0 (its documented matrix); point sets in general position only (no duplicate / "
     "cocircular / right-angle configurations, where tracklib's randomised minCircle is outside this property), "
@@ -62,10 +73,33 @@ def enumerate_optimum(W, N):
     return min(vals), max(vals), len(set(vals))
 
 
-def _eq(a, b, exact):
+def list_abs(W, L):
+    return sum(abs(W[L[k]][L[k + 1]]) for k in range(len(L) - 1))
+
+
+def _eq(a, b, exact, mag):
+    """a, b: values of two lists; mag = sum of the |entries| along those two lists.  The tolerance of the float comparison
+    is RELATIVE to the data that went into the two sums (a table of likelihoods around 1e-12 is judged as strictly as one of
+    costs around 1e6, and two penalty-free lists of a table that also holds 1e300 penalties are still told apart); an
+    absolute floor would hide everything that happens on small-magnitude tables.  Rounding of either sum, in any order of
+    association, is below 12 * 2^-53 * mag."""
     if exact:
         return a == b
-    return abs(a - b) <= REL * max(abs(a), abs(b), 1.0)
+    return abs(a - b) <= REL * mag
+
+
+def enumerate_optimum_abs(W, N):
+    """(min value, sum of |entries| of a list attaining it, max value, the same for it, number of distinct values)"""
+    best = worst = None
+    seen = set()
+    for L in all_lists(N):
+        v = list_value(W, L)
+        seen.add(v)
+        if best is None or v < best[0]:
+            best = (v, list_abs(W, L))
+        if worst is None or v > worst[0]:
+            worst = (v, list_abs(W, L))
+    return best[0], best[1], worst[0], worst[1], len(seen)
 
 
 def judge(entry, L, W, N, mode, exact):
@@ -77,20 +111,22 @@ def judge(entry, L, W, N, mode, exact):
         ok = False
     if not ok or len(Li) < 2 or Li[0] != 0 or Li[-1] != N - 1 or any(Li[k] >= Li[k + 1] for k in range(len(Li) - 1)):
         raise Violation("list-malformed", "%s returned %r; want strictly increasing from 0 to %d" % (entry, L, N - 1))
-    vmin, vmax, nvals = enumerate_optimum(W, N)
-    v = list_value(W, Li)
-    want = vmin if mode == MIN else vmax
-    if not _eq(v, want, exact):
+    vmin, amin, vmax, amax, nvals = enumerate_optimum_abs(W, N)
+    v, av = list_value(W, Li), list_abs(W, Li)
+    want, awant = (vmin, amin) if mode == MIN else (vmax, amax)
+    if not _eq(v, want, exact, av + awant):
         name = "minimize" if mode == MIN else "maximize"
-        other = vmax if mode == MIN else vmin
-        if _eq(v, other, exact):
+        other, aother = (vmax, amax) if mode == MIN else (vmin, amin)
+        if _eq(v, other, exact, av + aother):
             key = "minimize-returns-maximum" if mode == MIN else "maximize-returns-minimum"
         else:
             key = "suboptimal-" + name
         raise Violation(key, "%s (%s): %r has value %r, enumeration min %r max %r; upper triangle %r" % (
             entry, name, Li, v, vmin, vmax, [[W[i][j] for j in range(i + 1, N)] for i in range(N - 1)]))
     trivial = W[0][N - 1]
-    nt = (not _eq(vmin, vmax, exact)) and (not _eq(trivial, vmin, exact)) and (not _eq(trivial, vmax, exact))
+    atriv = abs(trivial)
+    nt = (not _eq(vmin, vmax, exact, amin + amax)) and (not _eq(trivial, vmin, exact, atriv + amin)) and (
+        not _eq(trivial, vmax, exact, atriv + amax))
     cls = ["min" if mode == MIN else "max", "N=%s" % (N if N <= 6 else "7-9" if N <= 9 else "10-12")]
     cls.append("all-lists-equal" if nvals == 1 else "two-element-list-optimal" if not nt else "interior-optimum")
     if len(Li) > 2:
@@ -110,13 +146,47 @@ def unpack(case):
             i //= b
     else:
         w = [float(v) for v in case["w"]]
+    exact = all(v == int(v) and abs(v) < 2 ** 40 for v in w)
+    # scale of the matrix: the same structure multiplied by 2^k (exact: integer-valued tables stay exactly comparable, all
+    # sums of <= 12 entries are exact in binary64 for |k| <= 60) or by a decimal factor (then judged with the relative tolerance)
+    if case.get("exp2"):
+        f = 2.0 ** int(case["exp2"])
+        w = [v * f for v in w]
+    elif case.get("fscale") is not None and case["fscale"] != 1:
+        f = float(case["fscale"])
+        w = [v * f for v in w]
+        exact = False
     W = [[0.0] * N for _ in range(N)]
     it = iter(w)
     for i in range(N):
         for j in range(i + 1, N):
             W[i][j] = W[j][i] = next(it)
-    exact = all(v == int(v) and abs(v) < 2 ** 40 for v in w)
     return N, W, exact
+
+
+def _scale_class(case):
+    if case.get("exp2"):
+        k = case["exp2"]
+        return "scale=2^k,k<-30" if k < -30 else "scale=2^k,-30<=k<0" if k < 0 else "scale=2^k,k>0"
+    if case.get("fscale") is not None and case["fscale"] != 1:
+        f = case["fscale"]
+        return "scale<=1e-9" if f <= 1e-9 else "scale=1e-8..1e-3" if f < 1 else "scale>=1e3"
+    return "scale=1"
+
+
+_EXP2 = [-50, -45, -40, -36, -33, -31, -30, -29, -27, -24, -20, -10, -1, 1, 10, 20, 30, 40]
+_FSCALE = [1e-13, 1e-12, 1e-10, 1e-9, 1e-8, 1e-6, 1e-3, 1e3, 1e6, 1e9]
+
+
+@st.composite
+def _scale_fields(draw, exp2=True, fscale=True):
+    """{} (scale 1) | {'exp2': k} | {'fscale': f}"""
+    kind = draw(st.sampled_from(["one", "one", "exp2", "exp2", "exp2", "fscale", "fscale"]))
+    if kind == "exp2" and exp2:
+        return {"exp2": draw(st.one_of(st.sampled_from(_EXP2), st.integers(-50, 40)))}
+    if kind == "fscale" and fscale:
+        return {"fscale": draw(st.sampled_from(_FSCALE))}
+    return {}
 
 
 def full_matrix(case, N, W):
@@ -187,6 +257,7 @@ def body_partition(case):
         raise Violation(v.key, "matrix dtype %s: %s" % (eff, v.msg))
     info["cls"].append("integer-valued" if exact else "float-valued")
     info["cls"].append("dtype=" + eff)
+    info["cls"].append(_scale_class(case))
     rc = _range_class(C0, W, N, eff)
     if rc:
         info["cls"].append(rc)
@@ -199,6 +270,16 @@ def body_partition(case):
         except Violation as v:
             raise Violation(v.key, "matrix dtype %s: %s" % (eff2, v.msg))
         info["cls"].append("dtype2=" + eff2)
+    # exhaustive sub-check: the same structure once more at another magnitude (entries k * 2^e, exact)
+    if "exp2_again" in case:
+        c3 = dict(case, exp2=case["exp2_again"])
+        _, W3, exact3 = unpack(c3)
+        L = optimalPartition(full_matrix(c3, N, W3), case["mode"], verbose=False)
+        try:
+            judge("optimalPartition", L, W3, N, case["mode"], exact3)
+        except Violation as v:
+            raise Violation(v.key, "matrix scaled by 2^%d: %s" % (case["exp2_again"], v.msg))
+        info["cls"].append(_scale_class(c3).replace("scale=", "again-at-"))
     # further calls with the SAME matrix object (a user minimises, then maximises, the criterion they built):
     # each answer is judged against the matrix as it was handed over the first time
     for k, mode in enumerate(case.get("again", [])):
@@ -221,9 +302,10 @@ def enum_partition(tier):
                 while d:
                     two = two or d % 3 == 2
                     d //= 3
-                yield {"N": N, "base": 3, "i": i, "mode": mode, "dtype2": _EXH_ROTATION[i % 7] if two else "bool"}
+                yield {"N": N, "base": 3, "i": i, "mode": mode, "dtype2": _EXH_ROTATION[i % 7] if two else "bool",
+                       "exp2_again": _EXP2[i % len(_EXP2)]}
         for i in range(2 ** 15):
-            yield {"N": 6, "base": 2, "i": i, "mode": mode, "dtype2": "bool"}
+            yield {"N": 6, "base": 2, "i": i, "mode": mode, "dtype2": "bool", "exp2_again": _EXP2[i % len(_EXP2)]}
 
 
 def _values(kind):
@@ -259,12 +341,15 @@ _KINDS_OF = {
 
 
 @st.composite
-def _matrix_case(draw, nmin=2, nmax=12, kinds=("tern", "int", "int", "quarter", "float", "float", "signed")):
+def _matrix_case(draw, nmin=2, nmax=12, kinds=("tern", "int", "int", "quarter", "float", "float", "signed"), exp2=True, fscale=True):
     N = draw(st.one_of(st.integers(nmin, nmax), st.integers(max(nmin, 4), 9)))
     kind = draw(st.sampled_from(list(kinds)))
     val = _values(kind)
     w = draw(st.lists(val, min_size=N * (N - 1) // 2, max_size=N * (N - 1) // 2))
-    return {"N": N, "w": w, "mode": draw(st.sampled_from([MIN, MAX])), "kind": kind}
+    c = {"N": N, "w": w, "mode": draw(st.sampled_from([MIN, MAX])), "kind": kind}
+    if exp2 or fscale:
+        c.update(draw(_scale_fields(exp2, fscale)))
+    return c
 
 
 @st.composite
@@ -273,13 +358,21 @@ def _second_table(draw, c):
     if draw(st.integers(0, 2)):
         return None
     m = c["N"] * (c["N"] - 1) // 2
-    return {"w": draw(st.lists(_values(c["kind"]), min_size=m, max_size=m)), "mode": draw(st.sampled_from([MIN, MAX]))}
+    t = {"w": draw(st.lists(_values(c["kind"]), min_size=m, max_size=m)), "mode": draw(st.sampled_from([MIN, MAX]))}
+    # the second table has a magnitude of its own (as the first one / 1 / another one)
+    how = draw(st.sampled_from(["same", "same", "one", "other"]))
+    if how == "same":
+        t.update({k: c[k] for k in ("exp2", "fscale") if k in c})
+    elif how == "other":
+        t.update(draw(_scale_fields()))
+    return t
 
 
 @st.composite
 def _partition_case(draw):
-    dtype = draw(st.sampled_from(["float64", "float64", "int64", "int64"] + DTYPES))
-    c = draw(_matrix_case(kinds=_KINDS_OF[dtype]))
+    dtype = draw(st.sampled_from(["float64", "float64", "float64", "float64", "int64", "int64"] + DTYPES))
+    # a float table may have any magnitude; the integer dtypes hold what fits them (large magnitudes: kinds i16, u16, i32)
+    c = draw(_matrix_case(kinds=_KINDS_OF[dtype], exp2=dtype in ("float64", "float32"), fscale=dtype == "float64"))
     val = _values(c["kind"])
     c["pad"] = draw(val)
     c["diag"] = draw(val)
@@ -291,8 +384,87 @@ def _partition_case(draw):
 
 
 # --- (2) optimalSegmentation with a table-backed cost function -----------------------------------------------
-def _track(n):
-    return gen.make_track([(float(3 * k), float((k * k) % 5)) for k in range(n)])
+T0 = gen.ms_of_fields(2020, 1, 1)
+
+
+def _stamps(tp, n):
+    """epoch ms of the n observations (None = the observation is built without a time stamp) for a time pattern
+    tp = {'kind': 'inc' | 'none' | 'equal' | 'dec' | 'arb', 'ranks': [...]}.  'inc' is a recorded track; 'none' a track built
+    from a geometry (Obs(position): every fix carries the default stamp); 'dec' what Track.reverse() leaves; 'arb' an
+    unsorted track (stamp of fix k = T0 + 1 s * ranks[k], repeats allowed)."""
+    kind = (tp or {}).get("kind", "inc")
+    if kind == "inc":
+        return [T0 + 1000 * k for k in range(n)]
+    if kind == "none":
+        return [None] * n
+    if kind == "equal":
+        return [T0] * n
+    if kind == "dec":
+        return [T0 + 1000 * (n - 1 - k) for k in range(n)]
+    r = tp["ranks"]
+    return [T0 + 1000 * int(r[k % len(r)]) for k in range(n)]
+
+
+def _make_track(pts, stamps):
+    """like gen.make_track, but a stamp None builds the observation without a time stamp (Obs(position))"""
+    from tracklib.core.obs import Obs
+    from tracklib.core.obs_coords import ENUCoords
+    from tracklib.core.track import Track
+    tr = Track([], 1)
+    for p, t in zip(pts, stamps):
+        pos = ENUCoords(p[0], p[1], p[2] if len(p) > 2 else 0.0)
+        tr.addObs(Obs(pos) if t is None else Obs(pos, gen.obstime_of_ms(t)))
+    return tr
+
+
+def _time_class(stamps):
+    n = len(stamps)
+    if stamps[0] is None:
+        return "times=none(Obs without stamp)"
+    if all(stamps[k] < stamps[k + 1] for k in range(n - 1)):
+        return "times=increasing"
+    if len(set(stamps)) == 1:
+        return "times=all-equal"
+    if all(stamps[k] > stamps[k + 1] for k in range(n - 1)):
+        return "times=decreasing"
+    return "times=unsorted"
+
+
+def _track(n, tp=None):
+    """positions are pairwise distinct (x = 3k), so a returned observation is identified by its POSITION"""
+    return _make_track([(float(3 * k), float((k * k) % 5)) for k in range(n)], _stamps(tp, n))
+
+
+def _indices_by_position(out, rec, label=""):
+    """index list of the observations of `out` in the input records rec (x, y, z, t, features), identified by position
+    (pairwise distinct in rec); the time stamp must be the one of that input observation."""
+    by_pos = {}
+    for k, r in enumerate(rec):
+        if r[:3] in by_pos:
+            raise AssertionError("positions of the input are not unique: %r" % (rec,))
+        by_pos[r[:3]] = k
+    L = []
+    for r in gen.track_records(out):
+        k = by_pos.get(r[:3])
+        if k is None or rec[k][3] != r[3]:
+            raise Violation("simplified-not-a-subset", "%ssimplified track holds %r, not a fix of the input" % (label, r))
+        L.append(k)
+    return L
+
+
+def _judge_vertices(entry, L, W, N, mode, exact, stamps):
+    """judge(), with a root-cause label when the returned observations are the right ones in the wrong order"""
+    try:
+        return judge(entry, L, W, N, mode, exact)
+    except Violation as v:
+        if v.key == "list-malformed" and sorted(L) != list(L) and len(set(L)) == len(L):
+            try:
+                judge(entry, sorted(L), W, N, mode, exact)
+            except Violation:
+                raise v
+            raise Violation("simplified-vertices-reordered", "%s returned the fixes %r of the input in this order (%s: %r); in track "
+                            "order they are an optimal list" % (entry, list(L), _time_class(stamps), stamps))
+        raise
 
 
 def _cost_fn(track, W, N, glob, calls):
@@ -323,6 +495,7 @@ def body_segmentation(case):
     L = optimalSegmentation(track, cost, glob, case["mode"], bool(case.get("verbose", False)))
     info = judge("optimalSegmentation", L, W, N, case["mode"], exact)
     info["cls"].append("glob-param" if glob is not None else "no-glob-param")
+    info["cls"].append(_scale_class(case))
     if case.get("then"):
         # the same Track object again, with another cost table / direction: judged against THAT table
         t2 = dict(case["then"], N=N)
@@ -348,7 +521,8 @@ def _segmentation_case(draw):
 # --- (3) simplify(track, cost, MODE_SIMPLIFY_FREE / FREE_MAXIMIZE) -----------------------------------------
 def body_simplify(case):
     N, W, exact = unpack(case)
-    track = _track(N + 1)
+    stamps = _stamps(case.get("times"), N + 1)
+    track = _track(N + 1, case.get("times"))
     rec = gen.track_records(track)
     calls = []
     cost = _cost_fn(track, W, N, None, calls)
@@ -358,28 +532,19 @@ def body_simplify(case):
         out = simplify(track, cost, smode)
     else:
         out = simplify(track, cost, smode, bool(case["verbose"]))
-    by_time = {r[3]: k for k, r in enumerate(rec)}
-    L = []
-    for r in gen.track_records(out):
-        k = by_time.get(r[3])
-        if k is None or rec[k][:3] != r[:3]:
-            raise Violation("simplified-not-a-subset", "simplified track holds %r, not a fix of the input" % (r,))
-        L.append(k)
-    info = judge("simplify", L, W, N, mode, exact)
+    L = _indices_by_position(out, rec)
+    info = _judge_vertices("simplify", L, W, N, mode, exact, stamps)
     info["cls"].append("verbose-default" if case.get("verbose") is None else "verbose-given")
+    info["cls"].append(_time_class(stamps))
+    info["cls"].append(_scale_class(case))
     if case.get("then"):
         # the same Track object again, with another cost table / direction: judged against THAT table
         t2 = dict(case["then"], N=N)
         _, W2, exact2 = unpack(t2)
         out = simplify(track, _cost_fn(track, W2, N, None, []), MODE_SIMPLIFY_FREE if t2["mode"] == MIN else MODE_SIMPLIFY_FREE_MAXIMIZE, False)
-        L = []
-        for r in gen.track_records(out):
-            k = by_time.get(r[3])
-            if k is None or rec[k][:3] != r[:3]:
-                raise Violation("simplified-not-a-subset", "second call: simplified track holds %r, not a fix of the input" % (r,))
-            L.append(k)
+        L = _indices_by_position(out, rec, "second call: ")
         try:
-            judge("simplify", L, W2, N, t2["mode"], exact2)
+            _judge_vertices("simplify", L, W2, N, t2["mode"], exact2, stamps)
         except Violation as v:
             raise Violation("repeat-call-" + v.key, "second call on the same track: " + v.msg)
         info["cls"].append("same-track-second-table")
@@ -391,7 +556,18 @@ def _simplify_case(draw):
     c = draw(_matrix_case(2, 10))
     c["verbose"] = draw(st.sampled_from([None, False, True]))
     c["then"] = draw(_second_table(c))
+    c["times"] = draw(_time_pattern())
     return c
+
+
+@st.composite
+def _time_pattern(draw):
+    """time stamps of the track along its index: see _stamps"""
+    kind = draw(st.sampled_from(["inc", "inc", "none", "none", "equal", "dec", "dec", "arb", "arb"]))
+    tp = {"kind": kind}
+    if kind == "arb":
+        tp["ranks"] = draw(st.lists(st.integers(0, 12), min_size=12, max_size=12))
+    return tp
 
 
 # --- (3b) simplify with the built-in criteria (modes 4, 5, 6): minimise the documented per-segment cost ---------
@@ -409,32 +585,27 @@ def _collinear_triple(pts):
 
 
 def _builtin_call(track, cur, smode, tol, label):
-    """simplify(track, tol, smode) on the (possibly edited) Track object `track`, whose fixes are NOW cur = [(x, y, t_ms)].
-    The criterion matrix comes from tracklib's cost function evaluated on a FRESH track built from cur."""
+    """simplify(track, tol, smode) on the (possibly edited) Track object `track`, whose fixes are NOW cur = [(x, y, t_ms | None)]
+    (None: observation without a time stamp).  The criterion matrix comes from tracklib's cost function evaluated on a FRESH
+    track built from cur.  Abscissas are pairwise distinct: returned observations are identified by position."""
     n = len(cur)
     N = n - 1                                  # break candidates 0..N-1 (the convention of optimalSegmentation)
     costfn = getattr(simplification, BUILTIN[smode])
-    ref = gen.make_track([(p[0], p[1]) for p in cur], [p[2] for p in cur])
+    ref = _make_track([(p[0], p[1]) for p in cur], [p[2] for p in cur])
     W = [[0.0] * N for _ in range(N)]
     for i in range(N):
         for j in range(i + 1, N):
             W[i][j] = W[j][i] = float(costfn(ref, i, j - 1, tol))
     if any(not math.isfinite(W[i][j]) for i in range(N) for j in range(N)):
         return None
-    rec = [(p[0], p[1], 0.0, p[2], ()) for p in cur]
+    rec = [(p[0], p[1], 0.0, 0 if p[2] is None else p[2], ()) for p in cur]       # an Obs without stamp shows 1970-01-01 00:00:00
     got = gen.track_records(track)
     if got != rec:
         # removeObs / setX / setY are not what C12 is about: a mismatch here is a fault of this harness (exit 2)
         raise AssertionError("%s: track holds %r, model %r" % (label, got, rec))
     out = simplify(track, tol, smode, False)
-    by_time = {r[3]: k for k, r in enumerate(rec)}
-    L = []
-    for r in gen.track_records(out):
-        k = by_time.get(r[3])
-        if k is None or rec[k][:3] != r[:3]:
-            raise Violation("simplified-not-a-subset", "%s: simplified track holds %r, not a fix of the input" % (label, r))
-        L.append(k)
-    info = judge("%s simplify(mode %d, tolerance %r)" % (label, smode, tol), L, W, N, MIN, False)
+    L = _indices_by_position(out, rec, label + ": ")
+    info = _judge_vertices("%s simplify(mode %d, tolerance %r)" % (label, smode, tol), L, W, N, MIN, False, [p[2] for p in cur])
     if gen.track_records(track) != rec:
         raise Violation("simplify-modifies-input", "%s: input track changed by simplify(mode %d)" % (label, smode))
     return info
@@ -447,18 +618,26 @@ def body_simplify_builtin(case):
     case["then"]: history on the SAME Track object - an in-place edit (a fix removed with removeObs, a fix moved with
     setX / setY, or nothing) followed by another call (same or other mode / tolerance); each call is judged against the
     coordinates the track holds at that call."""
-    pts = [tuple(p) for p in case["pts"]]
+    # magnitude of the coordinates: the generated half-integer geometry times 2^gexp2 (exact; 2^-17 ~ a track in degrees);
+    # a tolerance that is a length (modes 4 and 6) is scaled with it, the elongation ratio of mode 5 is not
+    g = 2.0 ** int(case.get("gexp2", 0))
+
+    def _tol(smode, tol):
+        return tol if smode == simplification.MODE_SIMPLIFY_MINIMIZE_ELONGATION_RATIO else tol * g
+
+    pts = [(p[0] * g, p[1] * g) for p in case["pts"]]
     if len(pts) < 3:
         return {"undef": True}
     if _collinear_triple(pts):
         return {"undef": True, "cls": ["undef-collinear-triple"]}
-    t0 = gen.ms_of_fields(2020, 1, 1)
-    cur = [(p[0], p[1], t0 + 1000 * k) for k, p in enumerate(pts)]
-    track = gen.make_track(pts, [p[2] for p in cur])
-    info = _builtin_call(track, cur, case["smode"], case["tol"], "call 1")
+    stamps = _stamps(case.get("times"), len(pts))
+    cur = [(p[0], p[1], stamps[k]) for k, p in enumerate(pts)]
+    track = _make_track(pts, stamps)
+    info = _builtin_call(track, cur, case["smode"], _tol(case["smode"], case["tol"]), "call 1")
     if info is None:
         return {"undef": True, "cls": ["undef-non-finite-cost"]}
-    info["cls"] += ["smode-%d" % case["smode"], "tol=0" if case["tol"] == 0 else "tol>0"]
+    info["cls"] += ["smode-%d" % case["smode"], "tol=0" if case["tol"] == 0 else "tol>0", _time_class(stamps),
+                    "coordinates*2^%d" % int(case.get("gexp2", 0))]
     calls, edits = 1, []
     for k, step in enumerate(case.get("then", [])):
         ed = step["edit"]
@@ -468,7 +647,7 @@ def body_simplify_builtin(case):
             del nxt[i]
         elif ed["op"] == "move":
             i = ed["idx"] % len(cur)
-            nxt[i] = (float(ed["x"]), float(ed["y"]), cur[i][2])
+            nxt[i] = (float(ed["x"]) * g, float(ed["y"]) * g, cur[i][2])
         # the edited track must stay in the domain (>= 3 fixes, general position); otherwise the history ends here
         if len(nxt) < 3 or len(set(p[0] for p in nxt)) < len(nxt) or _collinear_triple(nxt):
             info["cls"].append("history-cut:edit-leaves-domain")
@@ -483,13 +662,13 @@ def body_simplify_builtin(case):
         cur = nxt
         label = "call %d (same Track object, after %s)" % (k + 2, ", then ".join(edits + [ed["op"]]))
         try:
-            sub = _builtin_call(track, cur, step["smode"], step["tol"], label)
+            sub = _builtin_call(track, cur, step["smode"], _tol(step["smode"], step["tol"]), label)
         except Violation as v:
             # root-cause label: is a NEW Track object with the same coordinates simplified correctly?
-            if v.key in ("suboptimal-minimize", "minimize-returns-maximum", "list-malformed"):
-                fresh = gen.make_track([(p[0], p[1]) for p in cur], [p[2] for p in cur])
+            if v.key in ("suboptimal-minimize", "minimize-returns-maximum", "list-malformed", "simplified-vertices-reordered"):
+                fresh = _make_track([(p[0], p[1]) for p in cur], [p[2] for p in cur])
                 try:
-                    _builtin_call(fresh, cur, step["smode"], step["tol"], label)
+                    _builtin_call(fresh, cur, step["smode"], _tol(step["smode"], step["tol"]), label)
                 except Violation:
                     raise v
                 raise Violation("on-used-track-" + v.key, v.msg)
@@ -559,6 +738,8 @@ def _simplify_builtin_case(draw):
         then.append({"edit": ed, "smode": draw(st.sampled_from([smode, smode] + sorted(BUILTIN))),
                      "tol": draw(st.sampled_from([tol, tol] + tols))})
     case["then"] = then
+    case["times"] = draw(_time_pattern())
+    case["gexp2"] = draw(st.sampled_from([0, 0, 0, -17, -30, -40, 12]))
     return case
 
 
@@ -706,13 +887,17 @@ def _stops_case(draw):
 
 RULE = ("partition_exh: EVERY {0,1,2}-valued symmetric matrix for N = 2..5 candidates (3^1+3^3+3^6+3^10) and every {0,1}-valued one for "
         "N = 6 (2^15), each in both directions, as a float64 array and once more as an array of another dtype (bool for every 0/1 matrix; "
-        "int64/uint8/int8/int16/int32/uint16/float32 in rotation otherwise); partition: Hypothesis, N 2..12, generated dtype of the array "
+        "int64/uint8/int8/int16/int32/uint16/float32 in rotation otherwise) and a third time multiplied by 2^k, k rotating over 18 values in -50..40 "
+        "(exact comparison); partition: Hypothesis, N 2..12, generated dtype of the array "
         "(float64, int64, bool, uint8, int8, int16, int32, uint16, float32) with entries that fit it - {0,1,2} / ints 0..10 / quarters / "
         "floats [0,10] / ints -3..3 / bits / ints up to 200, +-120, +-30000, 60000, +-2e9 / floats around 2^24 - so that sums of a few "
-        "entries leave the narrow range; unused diagonal and last row/column filled with values of the same kind; optional further calls on the same array; "
+        "entries leave the narrow range; float tables at a generated magnitude: times 2^k (k -50..40, integer tables stay exactly comparable) or "
+        "times 1e-13..1e9 (relative tolerance); unused diagonal and last row/column filled with values of the same kind; optional further calls on the same array; "
         "segmentation and simplify: such matrices served through a table-backed cost function (with/without glob_param; FREE and "
-        "FREE_MAXIMIZE), optionally a second call with another table on the same Track object; simplify_builtin: modes 4/5/6 on 3..9-fix "
-        "tracks in general position followed by a generated history of 0..2 steps on the SAME Track object - in-place edit (removeObs / a fix "
+        "FREE_MAXIMIZE), at the same generated magnitudes, optionally a second call with another table (of its own magnitude) on the same "
+        "Track object; simplify and simplify_builtin: the time stamps of the track follow a generated pattern - increasing / none "
+        "(Obs built without stamp) / all equal / decreasing / unsorted - and returned fixes are mapped to input indices by position; "
+        "simplify_builtin: modes 4/5/6 on 3..9-fix tracks in general position, coordinates times 2^k (k in 0, -17, -30, -40, 12), followed by a generated history of 0..2 steps on the SAME Track object - in-place edit (removeObs / a fix "
         "moved with setX, setY / none), then simplify again with the same or another mode and tolerance - each call judged on the current coordinates; "
         "stops: 3..8-fix stop-and-go tracks (1-D integer or 2-D float), findStopsGlobal re-scored with the documented reward matrix. "
         "Every returned list is compared with the enumeration of all 2^(N-2) lists. Non-trivial: min-optimum != max-optimum and the "
@@ -720,15 +905,17 @@ RULE = ("partition_exh: EVERY {0,1,2}-valued symmetric matrix for N = 2..5 candi
 
 SUBCHECKS = [
     SubCheck("partition_exh", body_partition, enum=enum_partition, qshards=8, tshards=16,
-             rule="all {0,1,2} matrices N<=5, all {0,1} matrices N=6, both directions, float64 + a second dtype"),
+             rule="all {0,1,2} matrices N<=5, all {0,1} matrices N=6, both directions, float64 + a second dtype + once more times 2^k"),
     SubCheck("partition", body_partition, strategy=_partition_case, quick=4000, thorough=120000, qshards=4,
-             rule="random symmetric matrices N<=12 in 9 numpy dtypes, both directions"),
+             rule="random symmetric matrices N<=12 in 9 numpy dtypes, float tables at magnitudes 2^-50..2^40 / 1e-13..1e9, both directions"),
     SubCheck("segmentation", body_segmentation, strategy=_segmentation_case, quick=2000, thorough=60000, qshards=4,
-             rule="optimalSegmentation with table-backed cost, both directions"),
+             rule="optimalSegmentation with table-backed cost at generated magnitudes, both directions"),
     SubCheck("simplify", body_simplify, strategy=_simplify_case, quick=2000, thorough=60000, qshards=4,
-             rule="simplify FREE / FREE_MAXIMIZE with table-backed cost"),
+             rule="simplify FREE / FREE_MAXIMIZE with table-backed cost at generated magnitudes, on tracks with increasing / absent / equal / "
+                  "decreasing / unsorted time stamps"),
     SubCheck("simplify_builtin", body_simplify_builtin, strategy=_simplify_builtin_case, quick=1800, thorough=30000, qshards=4,
-             rule="simplify modes 4/5/6 (built-in bounding-rectangle criteria, tolerance incl. 0) on 3..9-fix tracks, then in-place edits and "
+             rule="simplify modes 4/5/6 (built-in bounding-rectangle criteria, tolerance incl. 0) on 3..9-fix tracks (5 time-stamp patterns, "
+                  "5 coordinate magnitudes), then in-place edits and "
                   "further calls on the same Track object; matrix from tracklib's own cost function on a fresh track, optimum by enumeration"),
     SubCheck("stops", body_stops, strategy=_stops_case, quick=1500, thorough=40000, qshards=4,
              rule="findStopsGlobal vs documented reward matrix"),
